@@ -18,14 +18,14 @@ class Hang(BaseException):
 @contextlib.contextmanager
 def guard(seconds, what="call"):
     """Guard around one call of the code under test (main thread only): `seconds` of CPU time of this process (a
-    runaway loop), or 30 x `seconds` of wall-clock time (a blocked call).  CPU time, not wall-clock time, so that a
+    runaway loop), or 6 x `seconds` of wall-clock time (a blocked call).  CPU time, not wall-clock time, so that a
     loaded machine never turns a slow call into a reported hang."""
     def onalarm(_s, _f):
-        raise Hang(f"{what} did not return within {seconds}s of CPU time / {30 * seconds}s")
+        raise Hang(f"{what} did not return within {seconds}s of CPU time / {6 * seconds}s")
     old_prof = signal.signal(signal.SIGPROF, onalarm)
     old_real = signal.signal(signal.SIGALRM, onalarm)
     signal.setitimer(signal.ITIMER_PROF, seconds)
-    signal.setitimer(signal.ITIMER_REAL, 30 * seconds)
+    signal.setitimer(signal.ITIMER_REAL, 6 * seconds)
     try:
         yield
     finally:
